@@ -338,3 +338,6 @@ func ext۰fmt۰Sprint(fr *frame, args []value) value {
 	}
 	return buf.String()
 }
+
+// lateExternal is consulted for functions without a body that have no entry in externals.
+func lateExternal(name string) externalFn { return nil }
